@@ -235,6 +235,27 @@ def main(argv=None) -> int:
       nv = len(r.get('violations', []))
       print(f'  shard {r["name"]}: {tag} paths={r.get("paths")} confirmed={r.get("confirmed")} '
             f'unknown={r.get("unknown")} viol={nv} cpu={r.get("cpu_s")}s', flush=True)
+  # 2b. direct solver queries (Engine C) contributed by the harness module, replayed like any other witness.
+  if hasattr(mod, 'pre') and not a.only:
+    for pr in mod.pre(a.tier, seed):
+      viols = []
+      for c in pr.pop('counterexamples', []):
+        payload = b64(dict(module=modname, fn=c['fn'], params=c.get('params', {}), argsets=[c['args']]))
+        p = subprocess.run([sys.executable, '-m', 'engine.replay', '--batch'], input=payload,
+                           capture_output=True, text=True, cwd=VERIF, timeout=600)
+        try:
+          rsig, rdetail = json.loads(p.stdout.strip().splitlines()[-1])[0]
+        except Exception:  # pylint: disable=broad-except
+          rsig, rdetail = 'replay-crash', (p.stderr or '')[-400:]
+        viols.append(dict(fn=c['fn'], params=c.get('params', {}), sig=c['sig'], detail=c.get('detail', ''),
+                          args_repr=repr(c['args']), args_b64=b64(c['args']),
+                          replay_sig=rsig, replay_detail=rdetail))
+      pr['violations'] = viols
+      pr.setdefault('fn', viols[0]['sig'] if False else pr.get('fn', 'z3'))
+      pr.setdefault('params', {})
+      results.append(pr)
+      print(f'  query {pr["name"]}: {"CLOSED" if pr.get("closed") else "INCOMPLETE"} solver_queries={pr.get("solver_queries")} '
+            f'models={len(viols)} solver_s={pr.get("solver_s")}', flush=True)
   results.sort(key=lambda r: r['name'])
 
   # 3. triage.
@@ -260,7 +281,8 @@ def main(argv=None) -> int:
       if rs in known_sigs:
         known_seen[rs] = known_seen.get(rs, 0) + 1
         continue
-      new_violations.append(dict(shard=r['name'], fn=r['fn'], params=r['params'], **v))
+      new_violations.append(dict(shard=r['name'], fn=v.get('fn', r['fn']), params=v.get('params', r['params']),
+                                 **{k: v[k] for k in v if k not in ('fn', 'params')}))
   reach_total: Dict[str, int] = {}
   for r in results:
     for k, n in (r.get('reach') or {}).items():
